@@ -50,7 +50,9 @@ NumSamples(w) == IF w * w <= MaxSamples THEN w * w ELSE MaxSamples
 Insert(h, w) ==
     /\ h \notin stored
     /\ stored' = stored \cup {h} /\ width' = [x \in (DOMAIN width) \cup {h} |-> IF x = h THEN w ELSE width[x]]
-    /\ IF phase = "connected" /\ (IF stored' = {} THEN 0 ELSE MaxOf(stored')) # StoreHead
+    \* Store::wait_new_head: the pending future remembers the head it saw when it was first polled (= headH,
+    \* the head at the last queue update) and is woken by insertions only; it returns when the head differs
+    /\ IF phase = "connected" /\ (IF stored' = {} THEN 0 ELSE MaxOf(stored')) # headH
        THEN UpdateQueueTo(stored', sampledS) ELSE UNCHANGED <<queue, headH>>
     /\ obs' = NoObs
     /\ UNCHANGED <<sampledS, meta, now, peers, phase, ongoing, timedOut, promised, hiPrunable, numPrunable, blk>>
@@ -62,8 +64,8 @@ RemoveH(h) ==
     /\ h \in promised \/ h \in sampledS
     /\ stored' = stored \ {h} /\ sampledS' = sampledS \ {h}
     /\ meta' = [x \in (DOMAIN meta) \ {h} |-> meta[x]]
-    /\ IF phase = "connected" /\ (IF stored' = {} THEN 0 ELSE MaxOf(stored')) # StoreHead
-       THEN UpdateQueueTo(stored', sampledS') ELSE UNCHANGED <<queue, headH>>
+    \* a removal wakes nobody: even if the head changes the queue is rebuilt only at the next insertion
+    /\ UNCHANGED <<queue, headH>>
     /\ obs' = NoObs
     /\ UNCHANGED <<width, now, peers, phase, ongoing, timedOut, promised, hiPrunable, numPrunable, blk>>
 
